@@ -35,6 +35,9 @@ type caseC12 struct {
 	Yields  []action   `json:"yields,omitempty"`
 	Sources []string   `json:"sources,omitempty"`
 	N       int        `json:"n,omitempty"`
+	// callers-shared: the Prog is parsed without OptOutput, so that its output
+	// is the library's default (standard output, here redirected to a file)
+	DefOut bool `json:"defout,omitempty"`
 }
 
 var raceSeen = map[string]int64{}
@@ -202,21 +205,47 @@ func checkC12(c caseC12) (viol string, nontrivial bool, feats []string) {
 	case "callers-shared":
 		src := c.Sources[0]
 		var out, log lockedBuf
-		p, err := bcl.Parse([]byte(src), "n", bcl.OptOutput(&out), bcl.OptLogger(&log))
+		var p *bcl.Prog
+		var err error
+		var stdoutFile *os.File
+		if c.DefOut {
+			// os.Stdout is safe for concurrent use, as the property requires of
+			// the writer; whatever the library puts in front of it must be too
+			f, ferr := os.CreateTemp(os.Getenv("VERIF_SCRATCH"), "c12-stdout-*")
+			must(ferr)
+			defer os.Remove(f.Name())
+			defer f.Close()
+			stdoutFile = f
+			saved := os.Stdout
+			os.Stdout = f
+			p, err = bcl.Parse([]byte(src), "n", bcl.OptLogger(&log))
+			os.Stdout = saved
+			feats = append(feats, "shared:default-output")
+		} else {
+			p, err = bcl.Parse([]byte(src), "n", bcl.OptOutput(&out), bcl.OptLogger(&log))
+		}
 		if err != nil {
 			return "", false, append(feats, "skipped:not-accepted")
+		}
+		readOut := func() string {
+			if stdoutFile == nil {
+				return out.String()
+			}
+			b, rerr := os.ReadFile(stdoutFile.Name())
+			must(rerr)
+			return string(b)
 		}
 		// every run (the sequential one too) with the same options: every
 		// second case traces, each caller into a writer of its own
 		xopts := func() []bcl.Option {
-			if c.N%2 == 0 {
+			if c.N%2 == 0 && !c.DefOut {
 				var own lockedBuf
 				return []bcl.Option{bcl.OptTrace(true), bcl.OptStats(true), bcl.OptOutput(&own)}
 			}
 			return nil
 		}
 		res0, b0, err0 := bcl.Execute(p, xopts()...)
-		out0, log0 := out.String(), log.String()
+		out0, log0 := readOut(), log.String()
 		type r struct {
 			blocks, bind, err string
 		}
@@ -244,7 +273,7 @@ func checkC12(c caseC12) (viol string, nontrivial bool, feats []string) {
 		// trace line is made of several writes, so traced runs interleave
 		// within lines and are compared by their results only)
 		wantLines := sortedLines(strings.Repeat(out0, c.N+1))
-		if gl := sortedLines(out.String()); c.N%2 != 0 && strings.Join(gl, "\n") != strings.Join(wantLines, "\n") {
+		if gl := sortedLines(readOut()); (c.N%2 != 0 || c.DefOut) && strings.Join(gl, "\n") != strings.Join(wantLines, "\n") {
 			return fmt.Sprintf("output of %d concurrent runs is not %d copies of the sequential output", c.N, c.N), false, feats
 		}
 		if strings.Count(log.String(), "WARNING") != strings.Count(log0, "WARNING")*(c.N+1) {
@@ -364,6 +393,7 @@ func genC12(t *rapid.T) caseC12 {
 		c.Kind = "callers-shared"
 		c.N = gen.Int(t, 2, 16, "ncallers")
 		c.Sources = []string{srcFor12(t, false)}
+		c.DefOut = gen.Chance(t, 30, "defout")
 	}
 	return c
 }
